@@ -187,6 +187,10 @@ def lean_audit(pid, log):
     rc, outp, dt = sh(["lake", "build", mod, "driver"], cwd=LEAN, timeout=3600)
     log.append("lake build %s driver: %.1fs rc=%d" % (mod, dt, rc))
     if rc != 0:
+        # name what stopped checking first: the modules lake could not build and the first error of each
+        mods = re.findall(r"^✖ \[\d+/\d+\] Building (\S+)", outp, flags=re.M)
+        firsts = re.findall(r"^error: (\S+?\.lean:\d+:\d+: .*)$", outp, flags=re.M)
+        res["stopped_checking"] = {"modules": mods[:10], "first_errors": [e[:300] for e in firsts[:5]]}
         res["errors"].append("lake build failed:\n" + outp[-6000:])
     rc2, outp2, dt2 = sh(["lake", "env", "lean", os.path.relpath(path, LEAN)], cwd=LEAN, timeout=3600)
     log.append("lean %s: %.1fs rc=%d" % (os.path.basename(path), dt2, rc2))
@@ -553,7 +557,9 @@ def main(argv):
                 problems.append(("harness-build", outp[-3000:]))
 
     if audit["errors"] or audit["discharged"] != audit["obligations"] or audit["obligations"] == 0:
-        problems.append(("proof", "obligations=%d discharged=%d failed=%s errors=%s" % (
+        sc = audit.get("stopped_checking")
+        head = ("no longer checks: %s — %s; " % (", ".join(sc["modules"][:4]) or "?", (sc["first_errors"] or ["?"])[0])) if sc else ""
+        problems.append(("proof", head + "obligations=%d discharged=%d failed=%s errors=%s" % (
             audit["obligations"], audit["discharged"], audit["failed"], audit["errors"][:5])))
 
     suites = []
